@@ -1,5 +1,6 @@
 import XmppModel.Model.Skeleton
 import XmppModel.Model.ServeLoop
+import XmppModel.Model.ScramLoop
 import XmppModel.Lemmas.Skeleton
 import XmppModel.Lemmas.ServeLoop
 import XmppModel.Generated.C09
@@ -128,5 +129,79 @@ theorem C09_serve_terminates (fails : List Tk → Bool) (input : List Tk) :
 example : (serve (fun _ => false) [.start, .chars, .stop, .chars, .start, .stop]).iterations = 4 := by decide
 example : (serve (fun _ => false) [.start, .chars, .stop, .chars, .start, .stop]).outcome = .eof := by decide
 example : (serve (fun _ => false) [.start, .bad, .stop, .chars]).outcome = .stopped := by decide
+
+/-! ## Lock discipline of session.go
+
+A path that leaves a function of session.go with `s.in`, `s.out` or `s.stateMutex` held wedges
+the session for ever (Serve blocks in `sendError` / `Close`).  The harness classifies every
+`Lock()` and every unmatched `Unlock()` of session.go syntactically (`harness/c09/lockfacts.go`,
+regenerated on every run); the obligation is that every classification is one of the sound
+patterns, that locks are handed to a caller only by the two functions whose result releases
+them, and that the two `Close` methods which release a lock they did not take do so by `defer`
+or with nothing but the "already closed" guard in front of the release. -/
+
+def lockOk (f : String × String × Nat) : Bool :=
+  match f.2.1 with
+  | "paired-defer" | "paired-explicit" => true
+  | "handoff" => f.1 == "xmpp.(*Session).TokenWriter" || f.1 == "xmpp.(*Session).TokenReader"
+  | "release-defer" => f.1 == "xmpp.(*lockWriteCloser).Close" || f.1 == "xmpp.(*lockReadCloser).Close"
+  | "release-plain" =>
+    (f.1 == "xmpp.(*lockWriteCloser).Close" || f.1 == "xmpp.(*lockReadCloser).Close") && f.2.2 ≤ 1
+  | _ => false
+
+def lockDisciplineOk : Option (List (String × String × Nat)) → Bool
+  | some l => !l.isEmpty && l.all lockOk
+  | none => false
+
+/-- Every `Lock()` in session.go is released on every path by one of the recognised patterns
+(or handed to the returned closer), and the closers release unconditionally. -/
+theorem C09_lock_discipline : lockDisciplineOk XmppModel.Generated.C09.lockFacts = true := by
+  decide +kernel
+
+example : lockOk ("xmpp.(*lockWriteCloser).Close", "release-plain", 2) = false := by decide
+example : lockOk ("xmpp.(*Session).Encode", "handoff", 0) = false := by decide
+
+/-! ## Known finding: the SCRAM client of the SASL dependency (negotiation, before Serve)
+
+Full-strength statement (false for mellium.im/sasl v0.3.2, see `Model/ScramLoop.lean`):
+`∀ msg, ScramLoop.serverFirst msg = .returns` — the client's field loop terminates on every
+server-first message.  The negation is proved with the witness the harness replays on the
+real code (`<challenge>AQ==</challenge>`, i.e. the one-byte message `[1]`); what does hold
+is the `_partial` theorem: the loop terminates whenever the last field is well-formed. -/
+
+open XmppModel.ScramLoop in
+theorem C09_scram_client_loop_fails : ¬ (∀ msg : ScramLoop.Bytes, serverFirst msg = .returns) := by
+  intro h
+  have := h [1]
+  revert this
+  decide
+
+open XmppModel.ScramLoop in
+theorem C09_scram_client_returns_partial :
+    ∀ fs : List ScramLoop.Bytes, (∀ f, fs.getLast? = some f → malformed f = false) → run fs = .returns := by
+  intro fs
+  induction fs with
+  | nil => intro _; rfl
+  | cons f rest ih =>
+    intro h
+    cases rest with
+    | nil =>
+      have := h f (by simp)
+      simp [run, this]
+    | cons g r =>
+      have ih' := ih (by intro f' hf'; exact h f' (by simpa using hf'))
+      simp only [run]
+      split
+      · exact ih'
+      · split
+        · rfl
+        · exact ih'
+
+-- non-vacuity: a plausible server-first message terminates, the witness does not
+open XmppModel.ScramLoop in
+-- "r=ab,i=1"
+example : serverFirst [114, 61, 97, 98, 44, 105, 61, 49] = .returns := by decide
+open XmppModel.ScramLoop in
+example : serverFirst [1] = .loops := by decide
 
 end XmppModel.Props.C09
